@@ -562,7 +562,22 @@ template <class C> Verdict check_C12(const Plan& plan, Stats& st) {
         // fault-free, loss-free run too: borrowed text never altered, const args unchanged
         Plan q = plan; q.extra = J(); q.target = -1; variants.push_back(q);
     } else variants.push_back(plan);
-    for (auto& q : variants) {
+    // read-only arguments must stay unchanged when an allocation fails as well: sweep every k of one call (C12's oracles only)
+    {
+        bool has_fault = false;
+        for (auto& o : plan.ops) if (o.fail_k) has_fault = true;
+        if (has_fault) {
+            Plan q = plan; q.extra = J(); q.target = -1;
+            for (int i = 0; i < (int)q.ops.size(); i++) if (q.ops[(size_t)i].fail_k) { q.target = i; break; }
+            st.runs--;
+            Verdict d = check_fault<C>(q, st, "C12");
+            if (d.violated) return d;
+        }
+    }
+    for (auto& q0 : variants) {
+        Plan q = q0;
+        for (auto& o : q.ops) { o.fail_k = 0; o.fail_mode = 0; }
+        if (q.target >= 0 && !q.extra.geti("enumerate_loss", 0)) q.target = -1;
         bool has_loss = false;
         for (auto& o : q.ops) if (o.kind == OP_LOSE || o.lose) has_loss = true;
         RunOut<C> ref = run_plan<C>(q, st, false, false);
